@@ -45,14 +45,14 @@ func (o Op) String() string {
 
 // ExecCfg fully determines one simulated execution of a program.
 type ExecCfg struct {
-	Seed         uint64   `json:"seed"`
-	Mode         string   `json:"mode"` // perm_only | history | full | faults
-	PermSites    bool     `json:"perm_sites"`
-	PermListings bool     `json:"perm_listings"`
-	SharedDeps   bool     `json:"shared_deps"`
-	RealReader   bool     `json:"real_file_reader,omitempty"` // real protobuild.fileReader over an in-memory fs.FS (no read faults)
-	Ops          []Op     `json:"ops"`
-	MaskSites    []string `json:"mask_sites,omitempty"`     // sites forced to identity order
+	Seed          uint64   `json:"seed"`
+	Mode          string   `json:"mode"` // perm_only | history | full | faults
+	PermSites     bool     `json:"perm_sites"`
+	PermListings  bool     `json:"perm_listings"`
+	SharedDeps    bool     `json:"shared_deps"`
+	RealReader    bool     `json:"real_file_reader,omitempty"` // real protobuild.fileReader over an in-memory fs.FS (no read faults)
+	Ops           []Op     `json:"ops"`
+	MaskSites     []string `json:"mask_sites,omitempty"`     // sites forced to identity order
 	MaskDecisions []string `json:"mask_decisions,omitempty"` // individual decisions (site, collection content) forced to identity order
 }
 
